@@ -174,6 +174,48 @@ def run(chk):
                 if bad:
                     chk.violation("pos=filter-%s|kind=%s|falsey=%s" % (name, kind(tv), falsey(tv)),
                                   "filter program %r: %s" % (text.strip(), bad), {"program": text, "stderr": err[-300:], "stdout_bytes": len(rr["out"])})
+        # layer objects, layer error objects (truncated headers) and null (no such layer) as patterns
+        full = pkt.eth(b"\x02" * 6, b"\x04" * 6, pkt.ET_IPV4, pkt.ipv4(b"\x0a\0\0\1", b"\x0a\0\0\2", 6, pkt.tcp(1, 2, b"payload")))
+        frames = [full, full[:10], full[:20], full[:40], full[:14], full[:34]]
+        lcap = os.path.join(work, "layers.pcap")
+        with open(lcap, "wb") as fh:
+            fh.write(pkt.pcap_file([(k, 0, fr) for k, fr in enumerate(frames)]))
+        for n in (1, 2, 3, 4):
+            want = []
+            for k, fr in enumerate(frames):
+                layers = pkt.decode(fr)
+                if n - 1 < len(layers):
+                    truthy = True            # a layer object or the error object of a layer that does not fit
+                else:
+                    truthy = bool(layers) and layers[-1][0] in ("error", "malformed")     # below a broken layer: still an error object
+                want.append(truthy)
+            for prog_kind, text in (("select", "@ $%d\n" % n), ("select-and", "@ PL >= 0 && $%d\n" % n), ("select-or", "@ $%d || false\n" % n)):
+                script = os.path.join(work, "l.p2")
+                with open(script, "w") as fh:
+                    fh.write(text)
+                with open(lcap, "rb") as fi:
+                    rr = core.run_binary([script], stdin_file=fi, release=(n % 2 == 0), timeout=20)
+                if rr["timeout"]:
+                    chk.inconc("timeout in filter run")
+                    continue
+                chk.observed(("filter-layer-pattern", n, prog_kind))
+                if core.crashed(rr):
+                    chk.violation("filter-pattern-crash|layer", "filter with pattern $%d crashes" % n, {"stderr": rr["err"].decode("utf-8", "replace")[-300:]})
+                    continue
+                hdr, recs, rest = pkt.parse_pcap(rr["out"])
+                got = sorted(r_[0] for r_ in recs) if hdr else None
+                exp = [k for k, t_ in enumerate(want) if t_]
+                # control: the same values judged by `if` in an action
+                with open(script, "w") as fh:
+                    fh.write("@ true { if $%d { eprintln(\"T {}\", NP - 1); } }\n" % n)
+                with open(lcap, "rb") as fi:
+                    rc_ = core.run_binary(["-s", script], stdin_file=fi, release=(n % 2 == 0), timeout=20)
+                ctl = sorted(int(x.split()[1]) for x in rc_["err"].decode("utf-8", "replace").splitlines() if x.startswith("T "))
+                if got != ctl:
+                    chk.violation("pos=filter-select|kind=layer-or-layer-error|n=%d" % n, "pattern %r selects packets %s, while `if $%d` in an action is taken for packets %s (frames: full, cut at 10, 20, 40, 14, 34 bytes)" % (
+                        text.strip(), got, n, ctl), {"program": text})
+                elif got != exp and n <= 3:
+                    chk.violation("pos=filter-select|kind=layer-or-layer-error|model|n=%d" % n, "pattern %r selects packets %s, the layer model says %s" % (text.strip(), got, exp), {"program": text})
     finally:
         import shutil
         shutil.rmtree(work, ignore_errors=True)
